@@ -96,6 +96,7 @@ def run(ctx):
 def jws_part(ctx):
     from joserfc import jws, rfc7797
     rng = ctx.rng
+    _batch = []
     names = list(K._SPECS)
     per_alg = 10 if ctx.tier == "quick" else 60
     for alg in J.ALL_ALGS:
@@ -136,7 +137,9 @@ def jws_part(ctx):
                     return f"verification with {alg} succeeded with an unsuitable key"
                 return None
             c.note = "suitable" if wantv else "unsuitable"
-            J.run_verify_cases(ctx, "jws-verify", [c], check_c01=True, expect=expect, prop="C06")
+            c.expect = expect
+            _batch.append(c)
+    J.run_verify_cases(ctx, "jws-verify", _batch, check_c01=True, prop="C06")
 
 
 def jwe_part(ctx):
